@@ -185,7 +185,11 @@ func (m *Model) altMatches(alt, whole *Term, wu *writeUnit, col string, ev map[*
 			if p := colEqParam(cj, "key"); p != nil {
 				if b, ok := wu.Site.bindingFor(p); ok && b.V != nil {
 					e2 := m.newTermEval()
-					kt := e2.term(b.V, wu.Site.Call, wu.Frame)
+					kfr := wu.Frame
+					if wu.Site.Helper != nil && b.Fr != nil && b.Fr.caller != nil {
+						kfr = rerootFrame(b.Fr, wu.Frame)
+					}
+					kt := e2.term(b.V, wu.Site.Call, kfr)
 					for _, s := range kt.alts() {
 						if termsEqual(alt, s) {
 							return true
